@@ -25,6 +25,20 @@ def ensure_tuple(value: str | tuple[str, ...]) -> tuple[str, ...]:
     return value
 
 
+def _closure_fingerprint(func: Callable) -> bytes:
+    """Deterministic rendering of the values a function captured (empty if none)."""
+    closure = getattr(func, "__closure__", None)
+    if not closure:
+        return b""
+    cells = []
+    for cell in closure:
+        try:
+            cells.append(repr(cell.cell_contents))
+        except ValueError:
+            cells.append("<empty_cell>")
+    return repr(tuple(cells)).encode()
+
+
 def hash_definition(func: Callable) -> str:
     """Compute SHA256 hash of a function's definition.
 
@@ -46,9 +60,14 @@ def hash_definition(func: Callable) -> str:
     # Prefer source code — most precise, captures comments and formatting
     try:
         source = inspect.getsource(func)
-        return hashlib.sha256(source.encode()).hexdigest()
     except (OSError, TypeError):
-        pass
+        source = None
+    if source is not None:
+        h = hashlib.sha256(source.encode())
+        # Functions created by one factory share their source; the values they
+        # captured are part of what they compute (x * k for k=2 vs k=3)
+        h.update(_closure_fingerprint(func))
+        return h.hexdigest()
 
     # Bytecode fallback — for exec/eval/Jupyter-defined functions
     code = getattr(func, "__code__", None)
@@ -65,13 +84,7 @@ def hash_definition(func: Callable) -> str:
         h.update(repr(getattr(func, "__kwdefaults__", None)).encode())
 
         # Include closure values to distinguish functions with different captured variables
-        closure = getattr(func, "__closure__", None)
-        if closure:
-            for cell in closure:
-                try:
-                    h.update(repr(cell.cell_contents).encode())
-                except ValueError:
-                    h.update(b"<empty_cell>")
+        h.update(_closure_fingerprint(func))
 
         return h.hexdigest()
 
